@@ -44,7 +44,7 @@ def run(argv):
                                    cwd=d, env=env, capture_output=True, text=True)
                 tests_ok = r.returncode == 0 and " passed" in r.stdout
             env = dict(os.environ, CURTSIES_REPO=d, VERIF_REPLAY_DIR=os.path.join(d, "replays"))
-            r = subprocess.run([os.path.join(VERIF, "check"), prop, "--tier", "quick", "--runs", runs, "--no-evidence", "--quiet"],
+            r = subprocess.run([os.path.join(VERIF, "check"), prop, "--tier", "quick", "--runs", runs, "--no-evidence", "--quiet", "--fast"],
                                capture_output=True, text=True, env=env)
             sigs = sorted(set(l.split("replay=")[1].split("/")[-1].split("-")[1] for l in r.stdout.splitlines()
                               if l.startswith("VIOLATION")))
